@@ -8,7 +8,7 @@ package main
 //
 // Bound: one record of 24 residues (linear and circular), located by the selector
 // `misc_feature`; sites drawn from 21 forward ranges over the coordinates {0,4,...,24}, the
-// complement of 6 of them and 3 single-base points; all single sites, and pairs and triples of
+// complement of 6 of them, 3 single-base points and 3 two-part joins; all single sites, and pairs and triples of
 // sites (ordered, so unsorted, nested, overlapping, duplicated and abutting configurations all
 // occur) sampled (quick) or exhaustive for pairs (thorough).  Commands: delete, delete -e,
 // insert, insert -e, infix, split, rotate, extract, extract -v, all with --no-cache -F fasta.
@@ -31,12 +31,35 @@ import (
 const vcSeq = "acgtaaccggttagctgatcgcat"
 const vcGuest = "nnn"
 
+// a site: one interval [lo,hi) (optionally on the complement strand), or a forward join of
+// intervals given in parts (then lo/hi are the outer ends)
 type vcSite struct {
 	lo, hi int
 	comp   bool
+	parts  string // "a-b,c-d" (0-based half-open) for a join, empty otherwise
+}
+
+func (s vcSite) intervals() [][2]int {
+	if s.parts == "" {
+		return [][2]int{{s.lo, s.hi}}
+	}
+	var out [][2]int
+	for _, p := range strings.Split(s.parts, ",") {
+		var a, b int
+		fmt.Sscanf(p, "%d-%d", &a, &b)
+		out = append(out, [2]int{a, b})
+	}
+	return out
 }
 
 func (s vcSite) String() string {
+	if s.parts != "" {
+		var ps []string
+		for _, iv := range s.intervals() {
+			ps = append(ps, fmt.Sprintf("%d..%d", iv[0]+1, iv[1]))
+		}
+		return "join(" + strings.Join(ps, ",") + ")"
+	}
 	loc := fmt.Sprintf("%d..%d", s.lo+1, s.hi)
 	if s.hi == s.lo+1 {
 		loc = fmt.Sprintf("%d", s.lo+1)
@@ -170,8 +193,10 @@ func vcCheck(bin, home, hostFile string, sites []vcSite, circular bool) {
 	L := len(vcSeq)
 	covered := make([]bool, L)
 	for _, s := range sites {
-		for x := s.lo; x < s.hi; x++ {
-			covered[x] = true
+		for _, iv := range s.intervals() {
+			for x := iv[0]; x < iv[1]; x++ {
+				covered[x] = true
+			}
 		}
 	}
 	count := func() {
@@ -314,8 +339,12 @@ func vcCheck(bin, home, hostFile string, sites []vcSite, circular bool) {
 			}
 		}
 		for _, s := range uniq {
-			if len(uniq) == 1 || s.hi-s.lo != L {
-				sub := vcSeq[s.lo:s.hi]
+			sub, n := "", 0
+			for _, iv := range s.intervals() {
+				sub += vcSeq[iv[0]:iv[1]]
+				n += iv[1] - iv[0]
+			}
+			if len(uniq) == 1 || n != L {
 				if s.comp {
 					sub = vcRevComp(sub)
 				}
@@ -367,15 +396,17 @@ func TestVerifBoundedCLI(t *testing.T) {
 	cs := []int{0, 4, 8, 12, 16, 20, 24}
 	for i := 0; i < len(cs); i++ {
 		for j := i + 1; j < len(cs); j++ {
-			univ = append(univ, vcSite{cs[i], cs[j], false})
+			univ = append(univ, vcSite{lo: cs[i], hi: cs[j]})
 		}
 	}
 	for _, r := range [][2]int{{0, 4}, {4, 12}, {8, 16}, {12, 24}, {20, 24}, {0, 24}} {
-		univ = append(univ, vcSite{r[0], r[1], true})
+		univ = append(univ, vcSite{lo: r[0], hi: r[1], comp: true})
 	}
 	for _, p := range []int{0, 11, 23} {
-		univ = append(univ, vcSite{p, p + 1, false})
+		univ = append(univ, vcSite{lo: p, hi: p + 1})
 	}
+	// joins; the first two share both outer ends and the total length
+	univ = append(univ, vcSite{lo: 0, hi: 24, parts: "0-4,12-24"}, vcSite{lo: 0, hi: 24, parts: "0-8,16-24"}, vcSite{lo: 4, hi: 16, parts: "4-8,12-16"})
 	var sets [][]vcSite
 	for _, a := range univ {
 		sets = append(sets, []vcSite{a})
@@ -394,6 +425,12 @@ func TestVerifBoundedCLI(t *testing.T) {
 	} else {
 		for k := 0; k < 120; k++ {
 			sets = append(sets, []vcSite{univ[rng.Intn(len(univ))], univ[rng.Intn(len(univ))]})
+		}
+		nj := len(univ) - 3 // the join sites, paired with each other in both orders
+		for a := nj; a < len(univ); a++ {
+			for b := nj; b < len(univ); b++ {
+				sets = append(sets, []vcSite{univ[a], univ[b]})
+			}
 		}
 		for k := 0; k < 80; k++ {
 			sets = append(sets, []vcSite{univ[rng.Intn(len(univ))], univ[rng.Intn(len(univ))], univ[rng.Intn(len(univ))]})
